@@ -119,6 +119,40 @@ def send_walks(rng, n, length):
     return out
 
 
+def recv_stream_walks(rng, n, length):
+    """receive-stream tier: STREAM / RESET_STREAM frames, reads, CancelRead, update retrievals on real ReceiveStreams.
+    Offsets are relative to the credit the endpoint has advertised so far (the harness resolves them), so that walks
+    live long enough to reach cancellations, final sizes and raised limits; a share of the frames probes beyond the limits."""
+    out = []
+    for g in ("toy", "toy3", "maxbelow", "real"):
+        c = CFGS[g]
+        CFGS["rs_" + g] = c
+        W = c["w0"]
+        for _ in range(n):
+            ops = []
+            for i in range(length):
+                s = rng.randrange(1, c["streams"] + 1)
+                r = rng.random()
+                if r < 0.30:
+                    ops.append({"op": "Recv", "s": s, "rel": "within", "k": rng.choice([0, 1, 1, 2, 3, 4]), "fin": rng.random() < 0.10})
+                elif r < 0.34:
+                    ops.append({"op": "Recv", "s": s, "rel": "old", "over": rng.choice([0, 1, W // 4]), "fin": rng.random() < 0.2})
+                elif r < 0.37:
+                    ops.append({"op": "Recv", "s": s, "rel": rng.choice(["stream+", "conn+"]), "over": rng.choice([0, 0, 1, W // 4]), "fin": rng.random() < 0.2})
+                elif r < 0.62:
+                    ops.append({"op": "Consume", "s": s, "n": rng.choice([1, W // 4, W // 2, W, 4 * W])})
+                elif r < 0.69:
+                    ops.append({"op": "Abandon", "s": s})
+                elif r < 0.74:
+                    ops.append({"op": "Reset", "s": s, "rel": "within", "k": rng.choice([0, 0, 1, 2, 4])})
+                elif r < 0.90:
+                    ops.append({"op": "StreamUpdate", "s": s})
+                else:
+                    ops.append({"op": "ConnUpdate", "s": 1})
+            out.append({"group": "rs_" + g, "cfg": c, "ops": ops})
+    return out
+
+
 def mutate(case, rng):
     idx = [i for i, e in enumerate(case) if e["ev"] in ("StreamUpdate", "ConnUpdate") and e.get("v", 0) > 0]
     if idx:
@@ -148,10 +182,24 @@ def run(replay=None):
         "component tier: real stream flow controllers sharing one real connection flow controller; window sizes and bytes read are read in-package (projection)",
         "auto-tuning is left open in the spec: a window may grow up to its maximum at any update; it may never shrink and an advertised limit always equals consumed + window",
         "send-stream tier and wire tier are separate parts of this check (see evidence parts)",
+        "receive-stream tier: real ReceiveStreams on real flow controllers; what a stream does to its controller is recorded by thin wrappers at the controller interface "
+        "(UpdateHighestReceived, AddBytesRead, Abandon, connection credit), what it answered to each frame at the frame's return; when abandoned bytes are credited is "
+        "left to the implementation, that they are is required of every stream reported complete",
     ]
+    wire_files = []
     if replay:
         cases = [json.load(open(os.path.join(replay, "stimulus.json")))]
-        groups = c.go_run("./internal/flowcontrol", "TestVerifC04", cases, vlib.pkg_overlay("internal/flowcontrol", "flowcontrol"))
+        g = cases[0].get("group", "")
+        CFGS.setdefault(g, cases[0]["cfg"])
+        if g.startswith("sendstr"):
+            groups = c.go_run(".", "TestVerifC04S", cases, vlib.pkg_overlay(".", "root"), outname="straces")
+        elif g.startswith("rs_"):
+            groups = c.go_run(".", "TestVerifC04R", cases, vlib.pkg_overlay(".", "root"), outname="rtraces")
+        elif g == "wire":
+            groups = {}
+            wire_files = c.go_run(".", "TestVerifC04W", cases, vlib.pkg_overlay(".", "root"), outname="wtraces").get("wire", [])
+        else:
+            groups = c.go_run("./internal/flowcontrol", "TestVerifC04", cases, vlib.pkg_overlay("internal/flowcontrol", "flowcontrol"))
     else:
         c.model_check("FlowControl_MC.tla", "FlowControl_MC_recv.cfg")
         c.model_check("FlowControl_MC.tla", "FlowControl_MC_send.cfg")
@@ -170,6 +218,13 @@ def run(replay=None):
         cases = cases + scases
         c.parts.append({"step": "generate", "what": "send-stream tier: seeded walks + scripted reliable-boundary cases", "cases": len(scases), "exhaustive": False})
         groups.update(g2)
+        # receive-stream tier (root package): ReceiveStream drives the real flow controllers
+        rcases = recv_stream_walks(c.rng, 1500 if not thorough else 25000, 40)
+        base = len(cases)
+        g3 = c.go_run(".", "TestVerifC04R", rcases, vlib.pkg_overlay(".", "root"), outname="rtraces", env={"VERIF_CASE_BASE": str(base)})
+        cases = cases + rcases
+        c.parts.append({"step": "generate", "what": "receive-stream tier: seeded walks of STREAM / RESET_STREAM frames, reads, CancelRead, update retrievals", "cases": len(rcases), "exhaustive": False})
+        groups.update(g3)
         # wire tier: real connections, sender = in-tree server, limits = what a fingerprint spec advertises per stream kind
         wcases = []
         for cl in (["firefox116", "chrome115"] if not thorough else ["firefox116", "firefox116c", "chrome115", "chrome146", "firefox116+pn+cid"]):
@@ -186,7 +241,7 @@ def run(replay=None):
         s["ops"] = s["ops"][:10]
     jobs = [{"label": g, "files": files, "constants": constants(g), "defs": defs(g), "invariants": INV} for g, files in groups.items()]
     viols = c.validate_many(c.spec("FlowControl_Trace.tla"), jobs, timeout=2400)
-    if not replay and wire_files:
+    if wire_files:
         viols += c.validate_many(c.spec("FlowWire.tla"), [{"label": "wire", "files": wire_files, "constants": {}, "invariants": ["Collected"]}], timeout=1200)
     if not replay:
         c.require_events(["Recv", "Consume", "Abandon", "StreamUpdate", "ConnUpdate", "Send", "MaxStreamData", "MaxData", "StreamBlocked", "ConnBlocked"])
